@@ -55,14 +55,14 @@ section seq
 variable {M : Type} (o : MapOps M) (c : Cfg) (cc : CCfg)
 
 theorem keeps_alive (ho : o.Lawful) (hinj : KeysInjective c)
-    (hr : ∀ s : St M, Inv' o c s → Inv' o c (restart o c s).1) (hmin : 0 < cc.minRenew)
+    (hmin : 0 < cc.minRenew)
     (hauto : cc.noAutoRenew = false) (sid : Sid) (ops : List COp) (hs : ∀ op ∈ ops, op.inScope cc) :
     let s := crun o c cc (cinit o c sid) ops
     s.panicked = some .outOfSync ∨
     (s.panicked = none ∧ ∀ name ρ, get s.rs name = some ρ →
       held o s.srv name ρ.key ∧ ∃ tm, get s.srv.timers (tkey name ρ.key) = some tm ∧ ρ.next < tm.deadline) := by
   intro s
-  rcases crun_fine ho hinj hr hmin hauto ops _ (Or.inr (cinit_alive ho hinj hr sid)) hs with h | h
+  rcases crun_fine ho hinj hmin hauto ops _ (Or.inr (cinit_alive ho hinj sid)) hs with h | h
   · exact Or.inl h
   · right
     refine ⟨h.np, fun name ρ hg => ⟨alive_held h name ρ hg, ?_⟩⟩
@@ -70,11 +70,11 @@ theorem keeps_alive (ho : o.Lawful) (hinj : KeysInjective c)
     exact ⟨tm, h1, h2⟩
 
 theorem advance_only_good_renews (ho : o.Lawful) (hinj : KeysInjective c)
-    (hr : ∀ s : St M, Inv' o c s → Inv' o c (restart o c s).1) (hmin : 0 < cc.minRenew)
+    (hmin : 0 < cc.minRenew)
     (s : CSt M) (h : Alive o c cc s) (dt : Nat) :
     ∀ rpc ∈ (cstep o c cc s (.adv dt)).2.rpcs, rpc.goodRenew := by
   simp only [cstep]
-  exact (cadv_alive ho hinj hr hmin _ _ s h).2
+  exact (cadv_alive ho hinj hmin _ _ s h).2
 
 /-- Unlock of one name leaves the renewers of every other name in place -/
 theorem unlock_leaves_others (s : CSt M) (name key name' : Str) (hne : name ≠ name') :
